@@ -63,7 +63,7 @@ fn perms<T: Clone>(v: &[T]) -> Vec<Vec<T>> {
 
 pub fn run(a: &Args) {
     let sel: Vec<String> = a.extra.iter().position(|x| x == "--kinds").and_then(|i| a.extra.get(i + 1)).map(|s| s.split(',').map(|x| x.to_string()).collect())
-        .unwrap_or_else(|| vec!["mut".into(), "pred".into(), "conv".into(), "addr".into(), "validate".into()]);
+        .unwrap_or_else(|| vec!["mut".into(), "pred".into(), "conv".into(), "addr".into(), "validate".into(), "text".into()]);
     let on = |k: &str| sel.iter().any(|s| s == k);
     let mut out = Out::new("From EB Require Import Corr.RunTypes Vm.Exec.", "types_case", &["types_mismatches", "types_spec_failures"]);
     out.only = a.only;
@@ -90,7 +90,7 @@ pub fn run(a: &Args) {
     }
     for i in 0..a.count as u64 {
         let mut rng = Rng::for_case(a.seed, 18, i);
-        let kinds: Vec<&str> = ["mut", "pred", "conv", "addr", "validate"].iter().copied().filter(|k| on(k)).collect();
+        let kinds: Vec<&str> = ["mut", "pred", "conv", "addr", "validate", "text"].iter().copied().filter(|k| on(k)).collect();
         match *rng.pick(&kinds) {
             "mut" => {
                 let keys = key_pool();
@@ -132,6 +132,56 @@ pub fn run(a: &Args) {
                 let mut b64 = [0u8; 64]; for b in b64.iter_mut() { *b = rng.next() as u8; }
                 let w8 = convert::word_8_from_u8_64(b64);
                 push(&mut out, format!("TWords8 {} {} {}", blist(&b64), zlist(w8.iter().copied()), blist(&convert::u8_64_from_word_8(w8))), "words8", json!(w8));
+            }
+            "text" => {
+                let codes = |t: &str| -> String { zlist(t.bytes().map(|b| b as i64)) };
+                let optw = |r: Result<Vec<Word>, essential_types::convert::FromHexError>| -> String { match r { Ok(v) => format!("(Some {})", zlist(v.iter().copied())), Err(_) => "None".into() } };
+                match rng.below(3) {
+                    0 => {
+                        let ws: Vec<Word> = (0..rng.range(0, 5)).map(|_| rng.word()).collect();
+                        let h = convert::hex_str_from_words(&ws);
+                        push(&mut out, format!("THexWords {} {} {} {}", zlist(ws.iter().copied()), codes(&h), optw(convert::words_from_hex_str(&h)), optw(convert::words_from_hex_str(&h.to_uppercase()))), "hex_words", json!(h));
+                    }
+                    1 => {
+                        let optb = |r: Option<Vec<u8>>| -> String { match r { Some(v) => format!("(Some {})", blist(&v)), None => "None".into() } };
+                        if rng.chance(1, 2) {
+                            let mut a = [0u8; 32]; for b in a.iter_mut() { *b = rng.next() as u8; }
+                            let shown = format!("{}", ContentAddress(a));
+                            let p1 = shown.parse::<ContentAddress>().ok().map(|c| c.0.to_vec());
+                            let p2 = shown.to_lowercase().parse::<ContentAddress>().ok().map(|c| c.0.to_vec());
+                            push(&mut out, format!("TDisplay 32 {} {} {} {}", blist(&a), codes(&shown), optb(p1), optb(p2)), "display_address", json!(shown));
+                        } else {
+                            let mut sg = [0u8; 64]; for b in sg.iter_mut() { *b = rng.next() as u8; }
+                            let sig = essential_types::Signature(sg, rng.next() as u8);
+                            let bytes: [u8; 65] = sig.clone().into();
+                            let shown = format!("{}", sig);
+                            let back = |t: &str| -> Option<Vec<u8>> { t.parse::<essential_types::Signature>().ok().map(|s| { let b: [u8; 65] = s.into(); b.to_vec() }) };
+                            push(&mut out, format!("TDisplay 65 {} {} {} {}", blist(&bytes), codes(&shown), optb(back(&shown)), optb(back(&shown.to_lowercase()))), "display_signature", json!(shown));
+                        }
+                    }
+                    _ => {
+                        let sols: Vec<Solution> = (0..rng.range(0, 3)).map(|_| rand_sol(&mut rng)).collect();
+                        let set = SolutionSet { solutions: sols.clone() };
+                        let tree = serde_json::to_value(&set).unwrap();
+                        fn sval(v: &serde_json::Value) -> String {
+                            match v {
+                                serde_json::Value::Number(n) => format!("(SNum {})", z(n.as_i64().unwrap())),
+                                serde_json::Value::String(t) => format!("(SStr {})", zlist(t.bytes().map(|b| b as i64))),
+                                serde_json::Value::Array(a) => format!("(SSeq [{}])", a.iter().map(sval).collect::<Vec<_>>().join("; ")),
+                                serde_json::Value::Object(m) => format!("(SMap [{}])", m.iter().map(|(k, x)| format!("({}%string, {})", coq_str(k), sval(x))).collect::<Vec<_>>().join("; ")),
+                                _ => "(SNum (-424242))".into(),
+                            }
+                        }
+                        let back_ok = serde_json::from_value::<SolutionSet>(tree.clone()).map(|b| b == set).unwrap_or(false)
+                            && serde_json::from_str::<SolutionSet>(&serde_json::to_string(&set).unwrap()).map(|b| b == set).unwrap_or(false);
+                        // the legacy field names, at both levels
+                        let legacy = serde_json::to_string(&set).unwrap().replace("\"solutions\"", "\"data\"").replace("\"predicate_data\"", "\"decision_variables\"");
+                        let legacy_ok = serde_json::from_str::<SolutionSet>(&legacy).map(|b| b == set).unwrap_or(false);
+                        let pc = postcard::to_allocvec(&set).unwrap();
+                        let postcard_ok = postcard::from_bytes::<SolutionSet>(&pc).map(|b| b == set).unwrap_or(false);
+                        push(&mut out, format!("TSerdeSolutionSet {} {} {} {} {}", list_of(&sols, coq_sol), sval(&tree), coq_bool(back_ok), coq_bool(legacy_ok), coq_bool(postcard_ok)), "serde_solution_set", json!(sols.len()));
+                    }
+                }
             }
             "addr" => {
                 match rng.below(5) {
